@@ -204,14 +204,14 @@ func sAdd(a, b string) string {
 	if a == "0" {
 		return b
 	}
-	return "(+ " + a + " " + b + ")"
+	return linNormalize("(+ " + a + " " + b + ")")
 }
 
 func sSub(a, b string) string {
 	if b == "0" {
 		return a
 	}
-	return "(- " + a + " " + b + ")"
+	return linNormalize("(- " + a + " " + b + ")")
 }
 
 func sSel(a, i string) string { return "(select " + a + " " + i + ")" }
